@@ -359,6 +359,9 @@ def render_project(case: T.Dict[str, T.Any], src: Path, rnd: random.Random) -> T
         args += ['--cross-file' if case['cross'] else '--native-file', str(mf)]
     for level, pre in ((4, ''), (8, 'sub:')):
         for a in lv[level - 1]:
+            if a['name'] == 'prefix' and level == 4 and rnd.random() < 0.5:
+                args.append('--prefix=' + text_of(a['r']))        # the dedicated spelling of -Dprefix=
+                continue
             args.append('-D' + pre + ('build.' if a['m'] == 'b' else '') + a['name'] + '=' + text_of(a['r']))
     return args
 
